@@ -85,7 +85,12 @@ def a2b(cs):
     """
     @param cs the base-62 encoded data (a string)
     """
-    return a2b_l(cs, num_octets_that_encode_to_this_many_chars(len(cs))*8)
+    os = a2b_l(cs, num_octets_that_encode_to_this_many_chars(len(cs))*8)
+    if b2a(os) != cs:
+        # characters outside the alphabet, a length no encoder produces, or a
+        # value too large for the decoded length
+        raise ValueError("not a canonical base62 encoding: %r" % (cs,))
+    return os
 
 def a2b_l(cs, lengthinbits):
     """
